@@ -184,7 +184,7 @@ def combine_canaries():
     f = "amr_kitchen/combine/combine.py"
     return [("bybox worker: first plotfile read sequentially again",
              [(f, "                bf1.seek(offset1)\n", "")], ["parallel_combine_by_boxes_offsets"]),
-            ("byfile worker: FAB header counts the first plotfile's components only",
-             [(f, "                    hw = header_from_indices(idx1[0],\n                           idx1[1],\n                           len(args['vidxs1']) + len(args['vidxs2']))\n                    # save the current offset\n                    offsets.append(bfw.tell())\n                    # Write the header and data\n                    bfw.write(hw)\n                    data1 = np.fromfile(bf1, 'float64', np.prod(shape1))\n                    data1 = data1.reshape(shape1, order='F')[..., args['vidxs1']]\n                    data2 = np.fromfile(bf2, 'float64', np.prod(shape2))\n                    data2 = data2.reshape(shape2, order='F')[..., args['vidxs2']]\n                    dataw = np.concatenate([data1.flatten(order='F'),\n                                            data2.flatten(order='F')])\n                    bfw.write(dataw.tobytes())\n    return offsets\n\ndef parallel_combine_by_binfile_offsets",
-               "                    hw = header_from_indices(idx1[0],\n                           idx1[1],\n                           len(args['vidxs1']))\n                    # save the current offset\n                    offsets.append(bfw.tell())\n                    # Write the header and data\n                    bfw.write(hw)\n                    data1 = np.fromfile(bf1, 'float64', np.prod(shape1))\n                    data1 = data1.reshape(shape1, order='F')[..., args['vidxs1']]\n                    data2 = np.fromfile(bf2, 'float64', np.prod(shape2))\n                    data2 = data2.reshape(shape2, order='F')[..., args['vidxs2']]\n                    dataw = np.concatenate([data1.flatten(order='F'),\n                                            data2.flatten(order='F')])\n                    bfw.write(dataw.tobytes())\n    return offsets\n\ndef parallel_combine_by_binfile_offsets")],
+            ("byfile worker: offset recorded after the header is written",
+             [(f, "                    # save the current offset\n                    offsets.append(bfw.tell())\n                    # Write the header and data\n                    bfw.write(hw)\n                    data1 = np.fromfile(bf1, 'float64', np.prod(shape1))\n                    data1 = data1.reshape(shape1, order='F')[..., args['vidxs1']]\n                    data2 = np.fromfile(bf2, 'float64', np.prod(shape2))\n                    data2 = data2.reshape(shape2, order='F')[..., args['vidxs2']]\n                    dataw = np.concatenate([data1.flatten(order='F'),\n                                            data2.flatten(order='F')])\n                    bfw.write(dataw.tobytes())\n    return offsets\n\ndef parallel_combine_by_binfile_offsets",
+               "                    # Write the header and data\n                    bfw.write(hw)\n                    # save the current offset\n                    offsets.append(bfw.tell())\n                    data1 = np.fromfile(bf1, 'float64', np.prod(shape1))\n                    data1 = data1.reshape(shape1, order='F')[..., args['vidxs1']]\n                    data2 = np.fromfile(bf2, 'float64', np.prod(shape2))\n                    data2 = data2.reshape(shape2, order='F')[..., args['vidxs2']]\n                    dataw = np.concatenate([data1.flatten(order='F'),\n                                            data2.flatten(order='F')])\n                    bfw.write(dataw.tobytes())\n    return offsets\n\ndef parallel_combine_by_binfile_offsets")],
              ["parallel_combine_by_binfile"])]
